@@ -234,6 +234,17 @@ def fields_rules(ctx):
               "names: velocity, density, Y(species), rhoh, temp, RhoRT; then gradp iff do_gradp; then I_R(species) iff "
               "do_species_reactions — the order in which the worker concatenates state ++ gradp ++ I_R",
               f"fields_out is built as {seq}", where=loc(fi, fi.node))
+    # species names come from ONE family of reference fields at a time (Y(...), or I_R(...) as a fallback): a pattern
+    # that matches both families lists every species twice and the conversion is refused
+    pats = [c.args[0].value for c in walk_no_nested(fi.node) if isinstance(c, ast.Call)
+            and norm(c.func) in ("re.search", "re.match", "re.fullmatch", "re.findall", "re.compile") and c.args
+            and isinstance(c.args[0], ast.Constant) and isinstance(c.args[0].value, str)]
+    both = [p_ for p_ in pats if "Y" in p_.replace("I_R", "") and "I_R" in p_]
+    ctx.check(not both, f"{P}.COMPONENT-ORDER", site,
+              "species names are taken from one family of reference fields per pattern",
+              f"the pattern {both[0]!r} matches Y(sp) and I_R(sp) fields alike: a reference plotfile that carries both "
+              f"lists every species twice, the field count no longer matches and no plotfile is written"
+              if both else "", key="species-source", semantic=True)
     # state layout table agrees with the names
     cr = ctx.prog.cls(CR, "CheckpointReader")
     tab = None
